@@ -824,7 +824,7 @@ func (s *TxStore) Rollback(tx mwdb.DBTransaction, height uint64) error {
 							})
 					} else {
 						if curHeight > 0 && readAddressHeight(addrVal) == curHeight {
-							err = deleteRawAddressRecord(nsAddresses, addrKey)
+							err = unuseAddressRecord(nsAddresses, addrKey, addrRec)
 							if err != nil {
 								return err
 							}
@@ -1041,7 +1041,7 @@ func (s *TxStore) Rollback(tx mwdb.DBTransaction, height uint64) error {
 						})
 				} else {
 					if curHeight > 0 && readAddressHeight(addrVal) == curHeight {
-						err = deleteRawAddressRecord(nsAddresses, addrKey)
+						err = unuseAddressRecord(nsAddresses, addrKey, addrRec)
 						if err != nil {
 							return err
 						}
